@@ -382,27 +382,28 @@ def boundary_inputs(quick):
     JUMP_FAMILIES, CONST_FAMILY).  -> (texts the parser model judges, texts judged on (T),(P),(E) only)"""
     from props import C04
     modelled, implonly = [], []
-    ks = [254, 255, 256, 257] if quick else list(range(248, 259))
-    tails = ("last", "then_var") if quick else C04.BOUNDARY_TAILS
+    ks = [254, 255, 256] if quick else list(range(248, 259))
     constructs = [(n, c) for n, c, _ in C04.BOUNDARY_CONSTRUCTS] + EXTRA_CONSTRUCTS
     for name, construct in constructs:
         for k in ks:
+            # quick: the construct as the last declaration at 254/255/256, followed by one more declaration at 255
+            tails = (("last", "then_var") if k == 255 else ("last",)) if quick else C04.BOUNDARY_TAILS
             for tail in tails:
                 src, _ = C04.boundary_program(name, construct, [], k, tail)
                 modelled.append(("boundary:locals:%s:%s:%d" % (name, tail, k), src))
             # the same in a block at script level (locals of the script function) and inside a method / lambda block
             pre = "".join("var v%d = %d;" % (i, i) for i in range(k))
             body = construct % {"last": k - 1} if "%(" in construct else construct
-            if "return" not in body:
+            if "return" not in body and (not quick or k in (255, 256)):
                 modelled.append(("boundary:blocklocals:%s:%d" % (name, k), C04.BOUNDARY_PRELUDE + "{ %s %s print(v0); }" % (pre, body)))
-            if not quick or k in (255, 256):
+            if not quick or k == 255:
                 modelled.append(("boundary:methodlocals:%s:%d" % (name, k), C04.BOUNDARY_PRELUDE + "class W { fn w(self) { %s %s } }" % (pre, body)))
                 modelled.append(("boundary:lambdalocals:%s:%d" % (name, k), C04.BOUNDARY_PRELUDE + "var w = || { %s %s };" % (pre, body)))
     for k in ([253, 254, 255, 256, 257] if quick else range(250, 259)):
         for tail in C04.BOUNDARY_TAILS:
             modelled.append(("boundary:params:%s:%d" % (tail, k), C04.params_program(k, tail)[0]))
     for name, construct in constructs:
-        for k in ([254, 255, 256] if quick else range(252, 258)):
+        for k in ([254, 255] if quick else range(252, 258)):
             ps = ", ".join("v%d" % i for i in range(k))
             body = construct % {"last": k - 1} if "%(" in construct else construct
             modelled.append(("boundary:params+:%s:%d" % (name, k), C04.BOUNDARY_PRELUDE + "fn f(%s) { %s }" % (ps, body)))
